@@ -348,6 +348,41 @@ fn odd_uint<const L: usize>(c: &Case, rep: &mut Rep) {
         consume_odd(rep, "Odd::from_le_hex", v);
     }
     judge_odd(rep, "Odd::from_le_hex", r.map(|v| ul(&v.get())), &le_val);
+    // garbage in an otherwise valid odd numeral must be rejected (documented panic), whatever the
+    // position: characters just outside the three hex ranges
+    if (be_val[0] & 1) == 1 && (be_val[0] >> 1) & 3 == 0 {
+        rep.class("odd_hex_garbage");
+        let n = hx.len();
+        for pos in 0..n {
+            if L > 2 && pos % 5 != (be_val[0] as usize >> 3) % 5 {
+                continue;
+            }
+            for g in ['g', 'G', '/', ':', '@', '`'] {
+                let mut t: Vec<char> = hx.chars().collect();
+                t[pos] = g;
+                let t: String = t.into_iter().collect();
+                if let Ok(v) = catch(|| Odd::<Uint<L>>::from_be_hex(&t)) {
+                    rep.fail("Odd::from_be_hex.rejects_garbage.missing_panic", format!("accepted {:?} as {}", t, hex(&ul(&v.get()))));
+                }
+            }
+        }
+    }
+    if (le_val[0] & 1) == 1 && (le_val[0] >> 1) & 3 == 0 {
+        let n = hx.len();
+        for pos in 0..n {
+            if L > 2 && pos % 5 != (le_val[0] as usize >> 3) % 5 {
+                continue;
+            }
+            for g in ['g', 'G', '/', ':', '@', '`'] {
+                let mut t: Vec<char> = hx.chars().collect();
+                t[pos] = g;
+                let t: String = t.into_iter().collect();
+                if let Ok(v) = catch(|| Odd::<Uint<L>>::from_le_hex(&t)) {
+                    rep.fail("Odd::from_le_hex.rejects_garbage.missing_panic", format!("accepted {:?} as {}", t, hex(&ul(&v.get()))));
+                }
+            }
+        }
+    }
     // select
     let y = &c.a[1];
     if x[0] & 1 == 1 && y[0] & 1 == 1 {
